@@ -39,6 +39,14 @@ for _p in ("C01", "C02"):
                           "and lost, values equal range totals, normalisation and sat lookup preserve meaning. ") + CLAIMS[_p]["text"]
     CLAIMS[_p]["technique"] = ("TLC model checking of the range ledger against the per-sat BIP assignment (spec/SatLedger.tla) + "
                                "TLA+ trace validation with TLC (spec/LedgerTrace.tla) of traces recorded from the real indexer")
+CLAIMS["C06"]["level"] = "model_checking"
+CLAIMS["C06"]["text"] = ("TLC checks spec/InscrFlotsam.tla for every transaction within small constants (up to 2 inputs with up to 2 inscriptions "
+                         "already on each, up to 2 new envelopes with any pointer, up to 2 outputs): the updater's per-transaction algorithm "
+                         "(inscribed_offsets, pointer handling, flotsam dealt to outputs) flags every inscription whose sat already carries one -- "
+                         "except in the recorded forward-pointer class, which the model exhibits --, flags nothing else unless an unbound envelope "
+                         "shares the offset, and never flags a clean first envelope on an uninscribed sat. ") + CLAIMS["C06"]["text"]
+CLAIMS["C06"]["technique"] = ("TLC model checking of the inscription updater's per-transaction algorithm against the sat-level meaning "
+                              "(spec/InscrFlotsam.tla) + TLA+ trace validation with TLC (spec/LedgerTrace.tla) of traces recorded from the real indexer")
 ENGINES[0]["kind_free_text"] += "; spec/SatLedger.tla model-checks the range-based reference ledger (spec/Ranges.tla) against the literal per-sat BIP transcription"
 
 
